@@ -254,6 +254,30 @@ impl CpuState {
             q: 0,
             no_sample: false,
         };
+        // values real programs meet far more often than uniform draws do: limits of the ranges, and
+        // two registers holding the same value
+        const EDGE: [u16; 12] = [0x0000, 0x0001, 0x00FF, 0x0100, 0x7FFF, 0x8000, 0xFFFE, 0xFFFF, 0xFF00, 0x0080, 0x3FFF, 0x4000];
+        for k in 0..8 {
+            let v = if rng.chance(1, 8) {
+                Some(*rng.pick(&EDGE))
+            } else if rng.chance(1, 16) {
+                Some(*rng.pick(&[s.bc, s.de, s.hl, s.ix, s.iy, s.sp]))
+            } else {
+                None
+            };
+            if let Some(v) = v {
+                match k {
+                    0 => s.bc = v,
+                    1 => s.de = v,
+                    2 => s.hl = v,
+                    3 => s.ix = v,
+                    4 => s.iy = v,
+                    5 => s.sp = v,
+                    6 => s.af = (s.af & 0x00FF) | (v << 8),
+                    _ => s.hl_ = v,
+                }
+            }
+        }
         // Q is either 0 or equal to F (the only values it can take at a boundary)
         if rng.bool() {
             s.q = s.af as u8;
